@@ -770,6 +770,10 @@ func sessionChargingReservation(
 				continue
 			}
 			ue.ReservedQuota[rg] = 0
+			// nothing more is granted: tell the consumer this was the final unit
+			finalUnitIndication = models.FinalUnitIndication{
+				FinalUnitAction: models.FinalUnitAction_TERMINATE,
+			}
 
 			unitInformation.Triggers = append(unitInformation.Triggers,
 				models.ChfConvergedChargingTrigger{
